@@ -14,7 +14,7 @@ Good == <<OK, 0>>
 \*  e.old / e.new : file text before / after    e.ok : the update exited 0    e.pats : the file's patterns (normalised, configuration order)
 \*  e.v : the new version's state    e.occ : the occurrences the layout generator placed (line, start, end, pat), all 1-based lines / 0-based spans
 RewriteVerdict(e) ==
-  LET r == Rewrite(e.old, e.pats, e.v, Dev.s2) IN
+  LET r == Rewrite(e.old, e.pats, e.v, Dev) IN
   IF r.ok /\ {r.kept[q] : q \in 1..Len(r.kept)} # {e.occ[q] : q \in 1..Len(e.occ)} THEN <<"skip:layout-not-well-formed", r.kept>>
   ELSE IF ~r.ok /\ e.occ # <<>> /\ e.expect_ok THEN <<"skip:layout-not-well-formed", r.missing>>
   ELSE IF ~e.ok THEN (IF r.ok THEN <<"rewrite:refused-although-every-pattern-matches", 0>>
